@@ -2,6 +2,8 @@
 
 from __future__ import annotations
 
+import numpy as np
+
 from ..core import Ctx
 from ..rtc import gen
 from ..rtc.driver import run_bounded
@@ -62,11 +64,32 @@ def bounded_cases(ctx: Ctx):
                 if func in ("var", "nanvar", "std", "nanstd") and i % 3 == 0:
                     c["finalize_kwargs"] = {"ddof": 1}
                 cases.append(c)
+    # 2-D labels reduced over both axes: block grids in two dimensions (cohorts are products of per-axis block selections)
+    pats2 = {
+        "checkerboard": [[5, 15, 5], [15, 5, 15]], "row_stripes": [[5, 5, 5], [15, 15, 15]], "col_stripes": [[5, 15, 25], [5, 15, 25]],
+        "corner": [[5, 5, 15], [5, 25, 25]], "with_missing": [[5.0, float("nan"), 15.0], [15.0, 5.0, float("nan")]],
+    }
+    grids = [[[1, 1], [1, 1, 1]], [[2], [1, 1, 1]], [[1, 1], [3]], [[1, 1], [2, 1]], [[2], [3]]]
+    v2 = np.array([[1.0, 2.0, 4.0], [8.0, 16.0, 32.0]])  # distinct subset sums: a wrong pairing of labels and values cannot cancel out
+    for func in ("sum", "nanmax", "count", "nanmean", "argmax", "nanfirst", "var"):
+        for pname, pat in pats2.items():
+            for gi_, grid in enumerate(grids):
+                i += 1
+                if ctx.quick and (i % 3 == 1) and pname != "checkerboard":
+                    continue
+                c = dict(array=enc(v2), by=[enc(np.array(pat))], func=func, chunks=grid, method=methods[i % 3], reindex=reindexes[(i // 3) % 3], split_every=[2, 4][i % 2])
+                if i % 4 == 0:
+                    c["by_chunks"] = [grid]
+                    c["expected_groups"] = [[5, 15, 25]]
+                    c["fill_value"] = -1 if func == "argmax" else (0 if func == "count" else "nan")
+                    if c["method"] == "cohorts":
+                        c["method"] = "map-reduce"
+                cases.append(c)
     return cases
 
 
 def nontrivial(c):
-    return len(c["chunks"][0]) >= 2 and len(set(c["by"][0]["data"])) >= 2
+    return sum(len(x) for x in c["chunks"]) > len(c["chunks"]) and len(set(map(str, c["by"][0]["data"]))) >= 2
 
 
 def run(ctx: Ctx):
